@@ -199,6 +199,13 @@ def weakset_list(ex, v):
     return out
 
 
+def b_set(ex, n, awaited, recv=None):
+    if n.args:
+        raise Unsupported('set(iterable)')
+    et = getattr(ex, '_want_set_elem', None) or STR
+    return V(Ty('set', (et,)), z3.K(et.sort(), z3.BoolVal(False)))
+
+
 def b_sum(ex, n, awaited, recv=None):
     a = n.args[0]
     if isinstance(a, ast.GeneratorExp) and isinstance(a.elt, ast.Constant) and a.elt.value == 1:
@@ -403,7 +410,7 @@ def install(spec: Spec):
     b = spec.builtins
     b.update({
         'len': b_len, 'max': _minmax(True), 'min': _minmax(False), 'isinstance': b_isinstance, 'issubclass': b_issubclass,
-        'hasattr': b_hasattr, 'id': b_id, 'str': b_str, 'range': b_range, 'list': b_list, 'sum': b_sum, 'all': b_all, 'any': b_any,
+        'hasattr': b_hasattr, 'set': b_set, 'id': b_id, 'str': b_str, 'range': b_range, 'list': b_list, 'sum': b_sum, 'all': b_all, 'any': b_any,
         'time.time': b_time, 'type': b_type, 'getattr': b_getattr, 'callable': b_callable,
         'inspect.isfunction': predicate('inspect.isfunction'), 'inspect.ismethod': predicate('inspect.ismethod'),
         'inspect.iscoroutinefunction': predicate('inspect.iscoroutinefunction'),
@@ -417,7 +424,7 @@ def install(spec: Spec):
     spec.methods[('Semaphore', 'release')] = sem_release
     spec.fields.setdefault('sem_value', INT)
     g = spec.globals.setdefault('*', {})
-    for name in ('len', 'max', 'min', 'isinstance', 'issubclass', 'hasattr', 'id', 'str', 'range', 'list', 'sum', 'all', 'any', 'type',
+    for name in ('set', 'len', 'max', 'min', 'isinstance', 'issubclass', 'hasattr', 'id', 'str', 'range', 'list', 'sum', 'all', 'any', 'type',
                  'getattr', 'callable', 'cast', 'old'):
         g[name] = ('fn', name)
     for mod in ('asyncio', 'time', 'inspect', 'logger', 'warnings', 'contextvars', 'datetime', 'anyio', 'traceback', 'weakref'):
